@@ -15,7 +15,7 @@
     - %Z: the Display text of the offset: "UTC" for Utc, "+hh:mm" for a whole-minute FixedOffset
       (no claim for offsets with seconds);
     - %s: seconds since 1970-01-01T00:00:00Z of the instant (a naive date-time is read as UTC),
-      unpadded (FW = 1);
+      "not padded" (note 6); the documentation states no field width for %0s / %_s: no claim;
     - a padding modifier is allowed on numeric specifiers only; an unknown specifier, a modifier on
       a non-numeric or composite specifier, or a field the value does not have makes formatting
       fail. *)
@@ -270,7 +270,10 @@ Definition num_width (f : nfield) : Z :=
   | _ => 2
   end.
 
+Definition width_documented (f : nfield) (p : dpad) : bool :=
+  match f, p with NTimestamp, DZero | NTimestamp, DSpace => false | _, _ => true end.
 Definition render_num (v : sval) (f : nfield) (p : dpad) : rres :=
+  if negb (width_documented f p) then RSkip else
   match num_value v f with
   | FMissing => RFail
   | FNoClaim => RSkip
